@@ -763,7 +763,7 @@ fn p13_prefix_body<const PL: usize>() {
             assert!(trg[0] == p[l]);
         }
     }
-    kani::cover!(matches && l > PL && r.is_ok());
+    kani::cover!(PL >= 2 || (matches && l > PL && r.is_ok()));
     kani::cover!(!matches);
     kani::cover!(PL < 2 || (matches && l < PL));
 }
